@@ -26,39 +26,94 @@ def rule_cache_check(ctx):
     )
     base, classes = _circuit_classes(ctx)
     n = 0
+
+    def guard_line(f):
+        g = [st.lineno for st in f.node.body if isinstance(st, ast.Expr) and isinstance(st.value, ast.Call) and src_of(st.value.func) == "self._maybe_init_storage"]
+        return min(g) if g else None
+
+    # methods that touch the caches before (or without) their own guard expose the access to their callers
+    exposed = {}
+    changed = True
+    while changed:
+        changed = False
+        for c in classes:
+            for name, f in c.methods.items():
+                if f.cls is not c or f.is_alias or isinstance(f.node, ast.Lambda) or name in CACHE_OWNERS or (c.name, name) in exposed:
+                    continue
+                lines = [x.lineno for x in ast.walk(f.node) if isinstance(x, ast.Attribute) and x.attr in CACHE_ATTRS and isinstance(x.value, ast.Name) and x.value.id == "self"]
+                for x in ast.walk(f.node):
+                    if isinstance(x, ast.Call) and isinstance(x.func, ast.Attribute) and isinstance(x.func.value, ast.Name) and x.func.value.id == "self":
+                        tgt = c.find(x.func.attr)
+                        if tgt is not None and tgt.cls is not None and (tgt.cls.name, x.func.attr) in exposed:
+                            lines.append(x.lineno)
+                g = guard_line(f)
+                if lines and (g is None or g > min(lines)):
+                    exposed[(c.name, name)] = min(lines)
+                    changed = True
     for c in classes:
         for name, f in c.methods.items():
             if f.cls is not c or f.is_alias or isinstance(f.node, ast.Lambda) or name in CACHE_OWNERS:
                 continue
             acc = [x for x in ast.walk(f.node) if isinstance(x, ast.Attribute) and x.attr in CACHE_ATTRS and isinstance(x.value, ast.Name) and x.value.id == "self"]
-            if not acc:
+            via = [x for x in ast.walk(f.node) if isinstance(x, ast.Call) and isinstance(x.func, ast.Attribute) and isinstance(x.func.value, ast.Name) and x.func.value.id == "self"
+                   and c.find(x.func.attr) is not None and c.find(x.func.attr).cls is not None and (c.find(x.func.attr).cls.name, x.func.attr) in exposed]
+            if not acc and not via:
                 continue
             n += 1
-            first = min(a.lineno for a in acc)
-            guards = [st.lineno for st in f.node.body if isinstance(st, ast.Expr) and isinstance(st.value, ast.Call) and src_of(st.value.func) == "self._maybe_init_storage"]
+            first = min(a.lineno for a in acc + via)
+            g = guard_line(f)
             q = f"{c.name}.{name}"
-            if guards and min(guards) < first:
-                r.ok(q, sample={"method": q, "first cache access": f"line {first}", "guard": f"self._maybe_init_storage() at line {min(guards)}"})
+            is_public = not name.startswith("_")
+            if g is not None and g < first:
+                r.ok(q, sample={"method": q, "first cache access": f"line {first}", "guard": f"self._maybe_init_storage() at line {g}"})
+            elif not is_public and (c.name, name) in exposed:
+                # a private helper without its own guard: the obligation moves to each caller (checked there)
+                r.ok(q, sample={"method": q, "guard": "delegated to callers (private helper)"}, nontrivial=False)
             else:
                 r.bad(Finding("cache-check-before-use", q,
-                              f"touches the memo caches (line {first}) without an unconditional self._maybe_init_storage() before: after more gates are "
+                              f"touches the memo caches (line {first}{' via an unguarded helper' if not acc else ''}) without an unconditional self._maybe_init_storage() before: after more gates are "
                               f"applied it can return results cached for the shorter circuit", where=f"{f.module.relpath}:{f.lineno}"))
     r.floor(n, 8, "cache-touching circuit methods")
-    # the staleness test itself
+    # the staleness test itself (structural: an if comparing the recorded gate count with num_gates whose branch clears)
     m = base.methods["_maybe_init_storage"]
-    s = src_of(m.node).replace(" ", "")
-    if "self._sample_n_gates!=self.num_gates" in s and "self.clear_storage()" in s:
-        r.ok("CircuitBase._maybe_init_storage", sample={"test": "self._sample_n_gates != self.num_gates -> clear_storage()"})
+
+    def _attrs(e):
+        return {x.attr for x in ast.walk(e) if isinstance(x, ast.Attribute) and isinstance(x.value, ast.Name) and x.value.id == "self"}
+
+    def _calls_clear(stmts):
+        return any(isinstance(x, ast.Call) and isinstance(x.func, ast.Attribute) and x.func.attr == "clear_storage" for st in stmts for x in ast.walk(st))
+
+    stale_ok = False
+    for n_ in ast.walk(m.node):
+        if isinstance(n_, ast.If):
+            for c_ in ast.walk(n_.test):
+                if isinstance(c_, ast.Compare) and len(c_.ops) == 1 and {"_sample_n_gates", "num_gates"} <= _attrs(c_):
+                    if isinstance(c_.ops[0], ast.NotEq) and _calls_clear(n_.body):
+                        stale_ok = True
+                    if isinstance(c_.ops[0], ast.Eq) and _calls_clear(n_.orelse):
+                        stale_ok = True
+    if stale_ok:
+        r.ok("CircuitBase._maybe_init_storage", sample={"test": "recorded gate count differs from num_gates -> clear_storage()"})
     else:
         r.bad(Finding("cache-check-before-use", "CircuitBase._maybe_init_storage", "staleness test on the gate count lost", where=f"{m.module.relpath}:{m.lineno}"))
     cs = base.methods["clear_storage"]
-    s = src_of(cs.node).replace(" ", "")
-    need = ["self._storage.clear()", "self._sampled_conditionals.clear()", "self._marginal_storage_size=0", "self._sample_n_gates=self.num_gates"]
-    miss = [x for x in need if x not in s]
+    cleared = {x.func.value.attr for x in ast.walk(cs.node) if isinstance(x, ast.Call) and isinstance(x.func, ast.Attribute) and x.func.attr == "clear"
+               and isinstance(x.func.value, ast.Attribute) and isinstance(x.func.value.value, ast.Name) and x.func.value.value.id == "self"}
+    assigned = {}
+    for a_ in ast.walk(cs.node):
+        if isinstance(a_, ast.Assign):
+            for t_ in a_.targets:
+                if isinstance(t_, ast.Attribute) and isinstance(t_.value, ast.Name) and t_.value.id == "self":
+                    assigned[t_.attr] = a_.value
+    miss = [x for x in ("_storage", "_sampled_conditionals") if x not in cleared and x not in assigned]
+    if not (isinstance(assigned.get("_marginal_storage_size"), ast.Constant) and assigned["_marginal_storage_size"].value == 0):
+        miss.append("_marginal_storage_size = 0")
+    if "num_gates" not in _attrs(assigned.get("_sample_n_gates", ast.Constant(value=None))):
+        miss.append("_sample_n_gates = self.num_gates")
     if not miss:
-        r.ok("CircuitBase.clear_storage", sample={"clears": need})
+        r.ok("CircuitBase.clear_storage", sample={"clears": sorted(cleared), "resets": sorted(assigned)})
     else:
-        r.bad(Finding("cache-check-before-use", "CircuitBase.clear_storage", f"does not perform {miss}", where=f"{cs.module.relpath}:{cs.lineno}"))
+        r.bad(Finding("cache-check-before-use", "CircuitBase.clear_storage", f"does not reset {miss}", where=f"{cs.module.relpath}:{cs.lineno}"))
     return r
 
 
